@@ -9,6 +9,7 @@ import (
 	"sort"
 	"strings"
 
+	abci "github.com/cometbft/cometbft/abci/types"
 	sdk "github.com/cosmos/cosmos-sdk/types"
 	"github.com/cosmos/gogoproto/proto"
 	"google.golang.org/protobuf/encoding/protowire"
@@ -65,6 +66,7 @@ type Engine struct {
 	// options
 	LightQueries bool // run scalar queries after each tx
 	NoDumpCheck  bool
+	NoModeTwin   bool // do not run each transaction in simulation mode first
 	TxCount      int
 	Watch        []string // extra bech32 addresses whose balances are tracked
 	history      []string // short textual history for replay files
@@ -74,6 +76,7 @@ type Engine struct {
 	SumAccepted  *big.Int // amounts of module-addressed burn messages accepted (distinct pairs)
 	SumBurnReq   *big.Int // successful Burn requests of successful transactions
 	SumDeposits  *big.Int // amounts stated by module-sent messages emitted by deposits
+	ModuleHeld   *big.Int // coins minted to the module's own account since the ledger baseline
 	c13Broken    bool
 	c13Started   bool
 }
@@ -217,6 +220,26 @@ func (e *Engine) Exec(tx Tx) *Report {
 		rc.Cov.Inconclusive("BuildTx: " + err.Error())
 		return rep
 	}
+	// ---- execution-mode twin: the same bytes in baseapp's simulation mode (check state == committed state here)
+	simDone, simOK := false, false
+	var simEvents []string
+	var simLog string
+	if !e.NoModeTwin && len(tx.Pre) == 0 && tx.Fault == nil {
+		e.C.Store.Phase = "simulate"
+		e.C.Store.Reset()
+		e.C.Deps.Reset()
+		e.C.Deps.Faults = nil
+		rc.LogCall("SIMULATE-TWIN %s", trunc(describeTx(&tx), 3000))
+		_, sres, serr := e.C.App.Simulate(bz)
+		rc.LogCall("DONE")
+		simDone, simOK = true, serr == nil
+		if serr != nil {
+			simLog = serr.Error()
+		}
+		if sres != nil {
+			simEvents = cctpEventStrings(sres.Events)
+		}
+	}
 	e.C.Store.Phase = "tx"
 	e.C.Store.Reset()
 	e.C.Deps.Reset()
@@ -287,6 +310,27 @@ func (e *Engine) Exec(tx Tx) *Report {
 	kindStr := strings.Join(kinds, "+")
 	rc.Cov.Cell("tx_outcome", kindStr+"/"+map[bool]string{true: "ok", false: "fail"}[rep.OK])
 	e.history = append(e.history, fmt.Sprintf("#%d %s -> %v (%s)", e.TxCount, kindStr, rep.OK, txExp))
+
+	// ---- execution-mode twin
+	if simDone {
+		rc.Cov.Assert("mode-twin.simulate-equals-deliver")
+		props := []string{}
+		for _, ex := range rep.Exp {
+			for _, p := range kindFailProps(ex.Kind) {
+				props = addProp(props, p)
+			}
+		}
+		if simOK != rep.OK {
+			e.viol(props, "mode-twin", fmt.Sprintf("mode-divergence:%s:simulate=%v:deliver=%v", kindStr, simOK, rep.OK),
+				fmt.Sprintf("the same transaction on the same state %s in simulation mode but %s when delivered (simulate: %s; deliver: %s)",
+					okWord(simOK), okWord(rep.OK), trunc(simLog, 300), trunc(rep.Res.Log, 300)), e.caseOf(&tx, ""))
+		} else if rep.OK {
+			if d := cctpEventStrings(rep.Res.Events); strings.Join(d, "\n") != strings.Join(simEvents, "\n") {
+				e.viol(props, "mode-twin", "mode-divergence-events:"+kindStr,
+					fmt.Sprintf("simulation and delivery of the same transaction emitted different module events:\nsimulate: %v\ndeliver:  %v", simEvents, d), e.caseOf(&tx, ""))
+			}
+		}
+	}
 
 	// ---- crash tap
 	if rep.Res.IsPanic() {
@@ -412,6 +456,16 @@ func (e *Engine) Exec(tx Tx) *Report {
 	e.checkReplacementKeeps(&tx, rep)
 	e.checkSuccessImplies(&tx, rep)
 	e.trackConservation(&tx, rep)
+	// coins minted to the module's own account (a burn message may name it as mint recipient) legitimately stay there
+	for _, d := range rep.Deps {
+		if d.Method == "Mint" && d.Err == "" && d.To == moduleBech() && d.Amount != nil {
+			if e.ModuleHeld == nil {
+				e.ModuleHeld = new(big.Int)
+			}
+			e.ModuleHeld.Add(e.ModuleHeld, d.Amount)
+			rc.Cov.Cell("late_failures", "mint-to-module-account")
+		}
+	}
 	e.checkDeps(&tx, rep, expDeps, fallible)
 	if txExp != DontCare {
 		contentDC := false
@@ -1007,8 +1061,11 @@ func (e *Engine) checkLedger(tx *Tx, rep *Report, pre map[string]*big.Int, extra
 	if base == nil {
 		base = new(big.Int)
 	}
+	if e.ModuleHeld != nil {
+		base = new(big.Int).Add(base, e.ModuleHeld)
+	}
 	if post[moduleBech()].Cmp(base) != 0 {
-		e.viol([]string{"C05"}, "ledger-delta", "module-balance-nonzero", fmt.Sprintf("module account holds %s after a transaction (it held %s before the history began)", post[moduleBech()], base), e.caseOf(tx, ""))
+		e.viol([]string{"C05"}, "ledger-delta", "module-balance-nonzero", fmt.Sprintf("module account holds %s after a transaction (it held %s before the history began, mints addressed to it included)", post[moduleBech()], base), e.caseOf(tx, ""))
 	}
 }
 
@@ -1331,4 +1388,27 @@ func (e *Engine) trackConservation(tx *Tx, rep *Report) {
 			}
 		}
 	}
+}
+
+func okWord(ok bool) string {
+	if ok {
+		return "succeeded"
+	}
+	return "failed"
+}
+
+// cctpEventStrings renders the module's typed events of one execution in order.
+func cctpEventStrings(evs []abci.Event) []string {
+	var out []string
+	for _, ev := range evs {
+		if !strings.HasPrefix(ev.Type, "circle.cctp.") {
+			continue
+		}
+		s := ev.Type
+		for _, a := range ev.Attributes {
+			s += " " + a.Key + "=" + a.Value
+		}
+		out = append(out, s)
+	}
+	return out
 }
